@@ -34,7 +34,24 @@ def plain_calls():
         t.text = x
         t.set('note', x)
         return c
-    return [
+    def rich_cfg(x, bare):
+        # an element in its own namespace with PLAIN (un-prefixed) attributes, an un-namespaced descendant with an attribute, mixed prefixes
+        c = etree.Element('config') if bare else new_ele('config')
+        n = etree.SubElement(c, '{urn:vendor:native}native')
+        n.set('operation', 'remove')
+        n.set('format', x)
+        d = etree.SubElement(c, 'cli-config-data')
+        etree.SubElement(d, 'cmd').text = x
+        e = etree.SubElement(n, '{urn:other}leaf', nsmap={'o': 'urn:other'})
+        e.set('{urn:other}flag', 'on')
+        e.text = x
+        return c
+    FRAG = {}
+    for prof in ('default', 'iosxe', 'junos', 'nexus', 'sros', 'huawei'):
+        for bare in (True, False):
+            FRAG['edit_config-rich-%s-%s' % ('bare' if bare else 'qualified', prof)] = (prof, bare)
+    rich = [(name, prof, (lambda x, y, bare=bare: ('edit_config', dict(config=rich_cfg(x, bare), target='running'))), 3) for name, (prof, bare) in FRAG.items()]
+    return rich + [
         ('edit_config-bare-xml', 'default', lambda x, y: ('edit_config', dict(config=bare_cfg(x), target='running')), 2),
         ('kill_session', 'default', lambda x, y: ('kill_session', dict(session_id=x)), 1),
         ('get_schema', 'default', lambda x, y: ('get_schema', dict(identifier=x, version=y)), 2),
@@ -153,6 +170,25 @@ def plain_from_etree(el):
     return ['E', el.tag, [[k, v] for k, v in el.attrib.items()], ch]
 
 
+def call_of(case):
+    """The call template of a case: by name when the case carries one (corpus witnesses), else by position."""
+    calls = plain_calls()
+    if case.get('name'):
+        return next(c for c in calls if c[0] == case['name'])
+    return calls[case['call']]
+
+
+def capture_only(before, after):
+    """True iff `after` differs from `before` ONLY in that elements without a namespace appear in the NETCONF base namespace."""
+    if not isinstance(after, list) or len(before) != len(after):
+        return False
+    for b, a in zip(before, after):
+        tag_ok = a[0] == b[0] or (not b[0].startswith('{') and a[0] == '{%s}%s' % (BASE, b[0]))
+        if not tag_ok or a[1] != b[1] or a[2] != b[2] or a[4] != b[4] or not capture_only(b[3], a[3]):
+            return False
+    return True
+
+
 NS_BINDINGS = {'get-xpath-ns': lambda x, y: [('p', y or 'urn:p')], 'edit_config-identityref': lambda x, y: [('ianaift', 'urn:iana-if-type')],
                'get-subtree-qname': lambda x, y: [('if', 'urn:iface')]}
 if True:
@@ -164,7 +200,7 @@ class C07(Check):
     PROPS_MODULE = 'NcVerif.Props.C07'
     RULE = ('(a) the regenerated operation table (every standard and vendor operation x argument shape x profile envelope; each row a case): '
             'root / single operation element / RFC 6241 order / enumerations / caller strings exactly once, parsed off the wire with xml.etree; '
-            '(b) 26 call templates (each call issued twice with the same argument objects: the second request must equal the first) instantiated with random nasty strings (markup characters, quotes, CR/LF/TAB, Unicode incl. astral, "]]>", '
+            '(b) 38 call templates (incl. <config> fragments with plain attributes and un-namespaced descendants, bare and qualified root, on six profiles: the fragment an independent parser finds in the request must be the caller\'s; (each call issued twice with the same argument objects: the second request must equal the first) instantiated with random nasty strings (markup characters, quotes, CR/LF/TAB, Unicode incl. astral, "]]>", '
             'long) and XML fragments, the request parsed with xml.etree (not lxml) and every string required to come back unaltered exactly '
             'where it belongs; (c) the model\'s escapeText/escapeAttr compared byte for byte with lxml\'s serialisation, and readText/readAttr '
             'with expat, on random strings; (d) random namespace-free trees built with new_ele/sub_ele: to_xml compared byte for byte with the model\'s '
@@ -247,8 +283,18 @@ class C07(Check):
             back = ET.fromstring(('<a k="%s">%s</a>' % (attr, body)).encode('utf-8'))
             return {'esctext': body, 'escattr': attr, 'readtext': back.text or '', 'readattr': back.get('k')}
         from impl.rpcstub import make_manager
-        name, profile, build, nstr = plain_calls()[case['call']]
+        name, profile, build, nstr = call_of(case)
         method, kw = build(case['x'], case['y'])
+
+        def canon_children(el):
+            def c(e):
+                return [e.tag, sorted(e.attrib.items()), e.text or '', [c(k) for k in e], e.tail or '']
+            return [c(k) for k in el]
+        frag_before = None
+        cfg_arg = kw.get('config')
+        if cfg_arg is not None and hasattr(cfg_arg, 'tag') and hasattr(cfg_arg, 'iter'):
+            from lxml import etree as _et
+            frag_before = canon_children(ET.fromstring(_et.tostring(cfg_arg)))
         m, s, dh = make_manager(profile=profile, raise_mode=0, server_caps=__import__('gen.optable', fromlist=['x']).ALL_CAPS,
                                 responder=lambda req, mid: '<rpc-reply message-id="%s" xmlns="%s"><ok/></rpc-reply>' % (mid, BASE))
         try:
@@ -295,7 +341,12 @@ class C07(Check):
             for a, v in el.attrib.items():
                 if a != 'message-id':
                     attrs.append(v)
-        return {'sent': len(s.sent), 'texts': texts, 'attrs': attrs, 'root': root.tag, 'nops': len(list(root)), 'nsdecls': decls, 'repeat': repeat}
+        frag_after = None
+        if frag_before is not None:
+            cfgs = [e for e in root.iter() if e.tag in ('config', '{%s}config' % BASE)]
+            frag_after = canon_children(cfgs[0]) if cfgs else 'no <config> element in the request'
+        return {'sent': len(s.sent), 'texts': texts, 'attrs': attrs, 'root': root.tag, 'nops': len(list(root)), 'nsdecls': decls, 'repeat': repeat,
+                'frag_before': frag_before, 'frag_after': frag_after}
 
     def model_lines(self, case):
         if case['kind'] == 'esc':
@@ -376,7 +427,7 @@ class C07(Check):
             if io['again'] != want:
                 return ('C07:tree-altered-on-the-wire', 'to_xml(to_ele(to_xml(t))) is read as a different tree')
             return None
-        name = plain_calls()[case['call']][0]
+        name = call_of(case)[0]
         if 'parse_error' in io:
             return ('C07:malformed-request:' + name, 'request is not well-formed XML: %s' % io['parse_error'])
         if io['sent'] == 0:
@@ -386,7 +437,15 @@ class C07(Check):
             return ('C07:shape:' + name, 'not exactly one <rpc> with one operation element')
         if io.get('repeat') is not None and io['repeat'] != [True] * len(io['repeat'] if isinstance(io['repeat'], list) else []):
             return ('C07:second-call-differs:' + name, 'the same call with the same argument objects, issued a second time, did not send the same request (%s)' % (io['repeat'],))
-        want = plain_calls()[case['call']][3]
+        if io.get('frag_before') is not None and io['frag_after'] != io['frag_before']:
+            if capture_only(io['frag_before'], io['frag_after']):
+                prof = call_of(case)[1]
+                return ('C07:unnamespaced-descendant-captured-by-default-namespace@' + prof,
+                        'profile %s writes the <rpc> envelope with the base namespace as DEFAULT namespace; an element WITHOUT a namespace inside the caller\'s '
+                        '<config> fragment is serialised without xmlns="" and is read by the server in the base namespace' % prof)
+            return ('C07:fragment-altered:' + name, 'the content of the caller\'s <config> element (names, namespaces, attribute names, text) is not what an independent '
+                    'parser finds in the request: %s' % (str(io['frag_after'])[:240],))
+        want = call_of(case)[3]
         x, y = case['x'], case['y']
         if name in NS_BINDINGS:
             for pfx, uri in NS_BINDINGS[name](x, y):
@@ -404,8 +463,8 @@ class C07(Check):
             if want == 0:
                 continue
             n = sum(1 for v in hay if tail(v, sval))
-            expect = 2 if name in ('edit_config-xml', 'edit_config-xmlstr', 'rpc-element', 'edit_config-bare-xml') else 1
-            if sname == 'y' and name in ('edit_config-xml', 'edit_config-xmlstr', 'rpc-element', 'edit_config-bare-xml'):
+            expect = 3 if name.startswith('edit_config-rich-') else (2 if name in ('edit_config-xml', 'edit_config-xmlstr', 'rpc-element', 'edit_config-bare-xml') else 1)
+            if sname == 'y' and (name.startswith('edit_config-rich-') or name in ('edit_config-xml', 'edit_config-xmlstr', 'rpc-element', 'edit_config-bare-xml')):
                 continue
             if x == y:
                 continue
